@@ -3238,3 +3238,69 @@ pub(crate) fn get_store_updates(
         exemptions: all_new_exemptions,
     }
 }
+
+/// Verification hooks: read-only access to resolver internals for the external harness.
+#[cfg(all(test, feature = "verif"))]
+pub(crate) mod verif_hooks {
+    use super::*;
+
+    pub fn requirements(
+        graph: &DepGraph<'_>,
+        policy: &Policy,
+        criteria_mapper: &CriteriaMapper,
+    ) -> Vec<CriteriaSet> {
+        resolve_requirements(graph, policy, criteria_mapper)
+    }
+
+    /// One dumped edge: (source, target, criteria, origin, freshness 0=stale 1=fresh-publisher 2=fresh).
+    pub type Edge = (
+        Option<VetVersion>,
+        Option<VetVersion>,
+        CriteriaSet,
+        DeltaEdgeOrigin,
+        u8,
+    );
+
+    fn dump(graph: &DirectedAuditGraph<'_>) -> Vec<Edge> {
+        let mut out = Vec::new();
+        for (src, edges) in graph {
+            for edge in edges {
+                out.push((
+                    src.cloned(),
+                    edge.version.cloned(),
+                    edge.criteria.clone(),
+                    edge.origin.clone(),
+                    match edge.freshness {
+                        DeltaEdgeFreshness::Stale => 0,
+                        DeltaEdgeFreshness::FreshPublisher => 1,
+                        DeltaEdgeFreshness::Fresh => 2,
+                    },
+                ));
+            }
+        }
+        out
+    }
+
+    /// Both adjacency maps of an audit graph, in map order then push order.
+    pub fn edges(graph: &AuditGraph<'_>) -> (Vec<Edge>, Vec<Edge>) {
+        (dump(&graph.forward_audits), dump(&graph.backward_audits))
+    }
+
+    pub fn required_entries(
+        graph: &DepGraph<'_>,
+        criteria_mapper: &CriteriaMapper,
+        requirements: &[CriteriaSet],
+        store: &Store,
+        package_name: PackageStr<'_>,
+        search_mode: SearchMode,
+    ) -> Option<SortedMap<RequiredEntry, CriteriaSet>> {
+        resolve_package_required_entries(
+            graph,
+            criteria_mapper,
+            requirements,
+            store,
+            package_name,
+            search_mode,
+        )
+    }
+}
